@@ -630,9 +630,13 @@ def run_mgr(case):
         from ghedesigner.output import OutputManager
         from ghedesigner.shape import Shapes
         user = copy.deepcopy({k: case[k] for k in ("poly", "nogo")})
-        loads = [-4.0e6 * (1.0 + 0.5 * math.sin(2.0 * math.pi * h / 8760.0)) for h in range(8760)]
+        if case.get("loads") == "negligible":
+            # every field is over-sized: the search ends in its "a single borehole is enough" branch
+            loads = [x * 0.002 for x in ghelib.atlanta_loads()]
+        else:
+            loads = [-4.0e6 * (1.0 + 0.5 * math.sin(2.0 * math.pi * h / 8760.0)) for h in range(8760)]
         cfg = {"phys": ghelib.default_physics(), "pipe": "SINGLEUTUBE", "loads": loads, "months": 12, "max_eft": 35.0, "min_eft": 5.0,
-               "max_h": 100.0, "min_h": 60.0, "flow": 0.5, "cont": True,
+               "max_h": 100.0, "min_h": 60.0, "flow": 0.5, "cont": case.get("cont", True),
                "geom": ("ROWWISE", case.get("perim"), case["max_sp"], case["space"], 0.1, case["max_rot"], case["min_rot"],
                         case["rot_step"], case["poly"], case["nogo"])}
         import warnings
@@ -654,7 +658,7 @@ def run_mgr(case):
             if case.get("perim") is not None:
                 start = case["min_rot"] * (math.pi / 180.0)
             own = []
-            for rt in sweep_angles(start, case["max_rot"] * (math.pi / 180.0), case["rot_step"]):
+            for rt in ([] if case.get("loads") == "negligible" else sweep_angles(start, case["max_rot"] * (math.pi / 180.0), case["rot_step"])):
                 if case.get("perim") is not None:
                     f = rw.two_space_gen_bhc(lot, case["space"], case["space"], rotate=rt, no_go=zones, p_space=case["perim"] * case["space"],
                                              intersection_tolerance=1e-5)
@@ -1490,9 +1494,9 @@ def run(ctx: core.Ctx):
     # cheap configuration (loads far too large, continue_if_design_unmet): the field of the smallest spacing comes back in ~2 s
     mgr = []
 
-    def add_mgr(poly, space, min_rot, max_rot, step, nogo, perim=None, shape="", note=None):
-        mgr.append({"kind": "mgr", "stream": "manager", "shape": shape, "poly": poly, "space": space, "max_sp": space + 2.0, "min_rot": min_rot,
-                    "max_rot": max_rot, "rot_step": step, "nogo": nogo, "perim": perim, "note": note})
+    def add_mgr(poly, space, min_rot, max_rot, step, nogo, perim=None, shape="", note=None, **extra):
+        mgr.append(dict({"kind": "mgr", "stream": "manager", "shape": shape, "poly": poly, "space": space, "max_sp": space + 2.0, "min_rot": min_rot,
+                         "max_rot": max_rot, "rot_step": step, "nogo": nogo, "perim": perim, "note": note}, **extra))
     sq = [[0.0, 0.0], [40.0, 0.0], [40.0, 40.0], [0.0, 40.0]]
     # deterministic part: triangular / closed-triangle / 4- / 5-gon zones, integer-only lots, wide rotation steps
     add_mgr(sq, 10.0, 0.0, 1.0, 1.0, [[[12.0, 12.0], [28.0, 12.0], [20.0, 28.0]]], shape="square+triangle")
@@ -1505,6 +1509,17 @@ def run(ctx: core.Ctx):
     add_mgr(tilted_rect(61.0, 26.0, 7.3, 0.0, 0.0), 10.0, -90.0, 90.0, 45.0, [], shape="tilted-rect")
     add_mgr(tilted_rect(70.0, 31.0, -33.0, 4.0, 0.0), 9.5, -90.0, 90.0, 30.0, [], shape="tilted-rect")
     add_mgr(tilted_rect(55.0, 24.0, 41.0, 0.0, 3.0), 8.0, -45.0, 45.0, 5.0, [], shape="tilted-rect")
+    # negligible loads: the search takes its "a single borehole is enough" branch; that borehole must be on the lot the user gave
+    add_mgr([[30.0, 20.0], [93.0, 24.0], [88.0, 61.0], [27.0, 57.0]], 12.0, -90.0, 0.0, 15.0, [[[50.0, 31.0], [71.0, 33.0], [58.0, 48.0]]],
+            shape="lot-away-from-origin", loads="negligible", max_sp=20.0)
+    add_mgr(tilted_rect(61.0, 26.0, 25.0, 25.0, 40.0), 10.0, -45.0, 45.0, 15.0, [], shape="lot-away-from-origin", loads="negligible", cont=False)
+    add_mgr([[0.0, 0.0], [50.0, 0.0], [50.0, 40.0], [0.0, 40.0]], 10.0, 0.0, 1.0, 1.0, [], shape="lot-with-origin-corner", loads="negligible")
+    for _ in range(1 if quick else 6):
+        _, poly = gen_polygon(rng, "ellipse")
+        t = (rng.uniform(20, 80), rng.uniform(20, 80))
+        poly = [[round(x + t[0], 3), round(y + t[1], 3)] for x, y in poly]
+        add_mgr(poly, cap_space(poly, round(rng.uniform(8, 14), 1), 120), -90.0, 90.0, 30.0, [], shape="lot-away-from-origin", loads="negligible",
+                cont=rng.random() < 0.5)
     for _ in range(8 * scale):
         kind = rng.choice(["ellipse", "rect", "tilted", "lattice"])
         if kind == "tilted":
@@ -1530,11 +1545,21 @@ def run(ctx: core.Ctx):
         ctx.case(("mgr", json.dumps(c["poly"]), c["space"], c["min_rot"], c["max_rot"], c["rot_step"], json.dumps(c["nogo"]), c["perim"]),
                  r["status"] == "ok" and len(r.get("points", [])) >= 2, None)
         if r["status"] != "ok":
-            if r["exc"] != "ZeroDivisionError":
+            if r["exc"] == "ValueError" and "truth value of an array" in r["msg"] and "sort" in r["msg"]:
+                # the search's borehole-removal step sorts boreholes by distance with the points as tie-breakers: symmetric fields with tied
+                # distances crash there (recorded observation about search_routines, not about field generation); observed, not judged
+                ctx.count("manager:observed-point-sort-tie-crash")
+                ctx.extra.setdefault("observed_point_sort_tie_crash", {"outline": c["poly"], "space": c["space"]})
+            elif r["exc"] != "ZeroDivisionError":
                 ctx.finding(f"exception:{r['exc']}:manager", f"RowWise through the manager raised {r['exc']} on outline {c['poly']}: {r['msg'][-200:]}", {"case": c})
             continue
         pts = r["points"]
         what = "RowWise through GHEManager (BoreFieldData)"
+        if c.get("loads") == "negligible":
+            what = "RowWise through GHEManager with negligible loads (BoreFieldData)"
+            ctx.count("manager:negligible-loads:%d-borehole-field" % len(pts) if len(pts) <= 1 else "manager:negligible-loads:larger-field")
+            if not pts:
+                ctx.finding("manager-empty-field", f"{what}: empty field on outline {c['poly']}", {"case": c})
         # (a) the field against the lot and the zones THE USER GAVE
         check_field(ctx, c, pts, what, "manager")
         # (b) what the constraint object holds: the user's step (degrees), window (radians), outline and every zone
